@@ -210,7 +210,13 @@ type hist struct {
 
 func atoi(s string) int { var i int; fmt.Sscanf(s, "%d", &i); return i }
 
+var shard, nshards, histCounter int
+
 func runHist(w *cw.Writer, mon int, h hist, tag string) {
+	histCounter++
+	if nshards > 1 && histCounter%nshards != shard {
+		return // another process of this run executes this history
+	}
 	r := newRunner(h.o, h.cap, h.U)
 	defer r.close()
 	r.obs() // block 0: a new cache (Capacity rounding, empty views)
@@ -256,6 +262,8 @@ func main() {
 	tier := flag.String("tier", "quick", "")
 	out := flag.String("out", "", "")
 	prop := flag.String("prop", "C01", "")
+	flag.IntVar(&shard, "shard", 0, "")
+	flag.IntVar(&nshards, "nshards", 1, "")
 	flag.Parse()
 	rng := rand.New(rand.NewSource(*seed))
 	mon := map[string]int{"C01": 1, "C02": 2, "C03": 3, "C13": 13}[*prop]
@@ -312,6 +320,9 @@ func main() {
 				return
 			}
 			for _, a := range alphabet {
+				if a[0] == 'r' && atoi(a[1:]) < ec.o.minimum {
+					continue // new capacity below the option's minimum partition count: outside the configuration class
+				}
 				rec(append(append([]string{}, prefix...), a))
 			}
 		}
